@@ -1,6 +1,8 @@
 import RosuModel.Lemmas.DecodeBytes
 import RosuModel.Props.C06b
 import RosuModel.Lemmas.DecodeLineCurve
+import RosuModel.Lemmas.DecodeLineNum
+import RosuModel.Lemmas.DecodeLineFields
 import RosuModel.Gen.DecodeKeys
 
 /-!
@@ -126,5 +128,24 @@ has a non-empty `control_points` (part of `KindOK` in `C06b.accepted_hit_object_
 theorem accepted_path_has_a_control_point (curve : List CP) (s : Str) (ox oy : Int)
     (h : (convertPathStr curve s ox oy).2 = .ok ()) : (convertPathStr curve s ox oy).1 ≠ [] :=
   convertPathStr_ok_ne_nil curve s ox oy h
+
+/-- (c) every path point `read_point` accepts has, before the slider position is subtracted, both
+coordinates in `[-131072, 131072]` (so the stored offsets are integral with magnitude `≤ 2^18`, exactly
+representable in `f32`). -/
+theorem path_point_in_range (v : Str) (ox oy : Int) (c : CP) (h : readPoint v ox oy = .ok c) :
+    (-131072 ≤ c.x + ox ∧ c.x + ox ≤ 131072) ∧ (-131072 ≤ c.y + oy ∧ c.y + oy ≤ 131072) :=
+  readPoint_bound v ox oy c h
+
+/-- (c) derived fields: a spinner duration is never NaN and never negative, a hold duration is never
+NaN (IEEE `-` of two finite values, then `max`): both are part of `KindOK` in
+`C06b.accepted_hit_object_fields`; `bpm_multiplier` is `1.0` or a quotient, never NaN. -/
+theorem bpm_multiplier_is_not_nan (beatLen speed : Nat) :
+    F64.isNaN (difficultyVal beatLen speed).2.1 = false := bpm_multiplier_not_nan beatLen speed
+
+/-- (c) a pushed break has a finite start with `|t| ≤ MAX_PARSE_VALUE` and an end that is not NaN
+and not before the start. -/
+theorem accepted_break_fields (line : Str) (st en : Nat) (h : parseEvent line = .ok (some (st, en))) :
+    F64.mag st ≤ maxParse64 ∧ F64.isFinite st = true ∧ F64.isNaN en = false ∧ F64.num st ≤ F64.num en :=
+  parseEvent_ok line st en h
 
 end Rosu.C06c
